@@ -48,6 +48,24 @@ def distances(ctx, pts, a, b, family):
             ctx.corr_checked += 1
             if not close(float(pdist[i]) ** 2, q, scale * 1e-3):
                 ctx.fail('predicate', 'perpendicular-distance-is-the-distance-to-the-line', 'linear_fit.perpendicular_distance_points', case, dict(i=i, impl_sq=float(pdist[i]) ** 2, model=float(q)))
+    # integer-dtype arrays (what the package's own tests pass), also with byte-count sized values: same distances as the float64 copy
+    if np.all(pts == np.floor(pts)) and np.all(a == np.floor(a)) and np.all(b == np.floor(b)):
+        for shift in (0, 36):
+            fI, aI, bI = (np.asarray(v).astype(np.int64) * (1 << shift) for v in (pts, a, b))
+            fI[:, 0], aI[0], bI[0] = pts[:, 0].astype(np.int64), int(a[0]), int(b[0])      # only y is a byte count; x stays small
+            fF, aF, bF = fI.astype(float), aI.astype(float), bI.astype(float)
+            ctx.tag('input:int64-dtype' + ('(y*2^36)' if shift else ''))
+            for nm, fn in (('shortest_distance_points', lf.shortest_distance_points), ('perpendicular_distance_points', lf.perpendicular_distance_points)):
+                if nm.startswith('perp') and np.all(aI == bI):
+                    continue
+                try:
+                    vi = np.asarray(fn(fI, aI, bI), float)
+                    vf = np.asarray(fn(fF, aF, bF), float)
+                except Exception as e:
+                    ctx.fail('predicate', 'completes-on-integer-dtype', 'linear_fit.' + nm, dict(case, y_shift=shift), repr(e)[:200])
+                    continue
+                if vi.shape != vf.shape or not np.allclose(vi, vf, rtol=1e-9, atol=1e-9 * float(np.max(np.abs(vf)) + 1e-300), equal_nan=True):
+                    ctx.fail('predicate', 'integer-dtype-gives-the-same-distances', 'linear_fit.' + nm, dict(case, y_shift=shift), dict(int64=vi.tolist(), float64=vf.tolist()))
     ctx.count(family, n=len(pts), nontrivial_key=(pts.tobytes(), a.tobytes(), b.tobytes()) if not np.all(a == b) else None,
               sample=dict(a=a.tolist(), b=b.tolist(), points=pts.tolist()[:4], shortest=[float(v) for v in sd[:4]]))
 
@@ -168,11 +186,12 @@ def run(ctx):
     rng = ctx.rng
     quick = ctx.tier == 'quick'
     for _ in range(250 if quick else 5000):
-        a, b = np.array(gp(rng)), np.array(gp(rng))
+        q = 1.0 if rng.random() < 0.35 else 0.5          # integral coordinates also run as int64 arrays
+        a, b = np.array(gp(rng, 16, q)), np.array(gp(rng, 16, q))
         if rng.random() < 0.1:
             b = a.copy()
         k = rng.randrange(1, 6)
-        pts = np.array([gp(rng, 24) for _ in range(k)], float)
+        pts = np.array([gp(rng, 24, q) for _ in range(k)], float)
         if rng.random() < 0.3:
             pts[0] = a
         distances(ctx, pts, a, b, 'segment' if not np.all(a == b) else 'degenerate-a==b')
@@ -187,7 +206,15 @@ def run(ctx):
     for _ in range(300 if quick else 6000):
         r1 = (gp(rng, 8, 1.0), gp(rng, 8, 1.0))
         r2 = (gp(rng, 8, 1.0), gp(rng, 8, 1.0)) if rng.random() < 0.8 else r1
-        rects(ctx, r1, r2, 'rectangles')
+        fam = 'rectangles'
+        if rng.random() < 0.2:
+            # exact power-of-two scalings (the IoU is scale invariant): tiny and huge rectangles
+            e = rng.choice([-30, -40, 30, -100])
+            sc = 2.0 ** e
+            r1 = tuple([c * sc for c in p] for p in r1)
+            r2 = tuple([c * sc for c in p] for p in r2)
+            fam = 'rectangles@2^%d' % e
+        rects(ctx, r1, r2, fam)
     for _ in range(300 if quick else 6000):
         f, g, h = gp(rng, 12, 1.0), gp(rng, 12, 1.0), gp(rng, 12, 1.0)
         if rng.random() < 0.2:
